@@ -3,6 +3,7 @@
   `K` is any linearly ordered field (ℚ in the driver, ℝ for the real code's idealisation).
 -/
 import Proofs.C13_Lemmas
+import Proofs.C13_Params
 import Mathlib.Tactic.IntervalCases
 
 namespace Atomman.C13
